@@ -119,3 +119,6 @@ def _obs():
 
 
 OBLIGATIONS = _obs()
+
+from harness.corace import OB_DEPS, task_dependencies  # noqa: E402
+OBLIGATIONS += [dict(OB_DEPS, id='C07.deps', cases=[(f1, f2, True) for f1 in (False, True) for f2 in (False, True)])]
